@@ -6,7 +6,7 @@ pub fn validate(s: &str) -> Result<(), Error> {
     {
         if s.is_empty() {
             return Err(Error::Empty);
-        } else if !s.chars().all(|c| c.is_alphanumeric() || c == '_') {
+        } else if !s.chars().all(|c| c.is_ascii_alphanumeric() || c == '_') {
             return Err(Error::InvalidCharacters);
         }
     }
